@@ -375,6 +375,10 @@ class SymSpec(object):
     def length_along(self, arr, d):
         return arr.axes[d].size
 
+    def floordiv(self, a, b): return sym.num_floordiv(SNum.lift(a), SNum.lift(b))
+    def is_integer(self, x): return SBool(z3.IsInt(SNum.lift(x).rv()))
+    def note_index(self, arr, k): arr.axes[0].note_index(_zidx(k))
+
     def loop_indices(self, arr):
         """the generic index of the (single) symbolic loop that ran over arr's positions"""
         return [SNum(FIN, l[0], is_int=True, is_numpy=False) for l in CTX.loops if l[0] is not None]
@@ -585,6 +589,9 @@ class ConcSpec(object):
         return sum(1 for i in _np.ndindex(*a.shape) if bool(pred(i)))
 
     def length_along(self, arr, d): return _np.shape(arr)[d]
+    def floordiv(self, a, b): return a // b
+    def is_integer(self, x): return float(x).is_integer()
+    def note_index(self, arr, k): return None
     def loop_indices(self, arr): return list(range(len(arr)))
 
     def two_generic(self, arr, dim):
